@@ -821,3 +821,65 @@ Lemma items_stable_h h d i j idi idj it v w :
 Proof.
   destruct (failed_starts_change_nothing h d) as [A _]. rewrite A. apply items_stable.
 Qed.
+
+(* ---------- how the data directory is spelled ---------- *)
+Lemma norm_app acc a b : norm acc (a ++ b) = norm (rev (norm acc a)) b.
+Proof.
+  revert acc; induction a as [|c r IH]; intro acc; cbn [app norm].
+  - rewrite rev_involutive. reflexivity.
+  - destruct c; apply IH.
+Qed.
+
+Lemma norm_names acc ns : norm acc (map Name ns) = rev acc ++ ns.
+Proof.
+  revert acc; induction ns as [|n r IH]; intro acc; cbn [map norm].
+  - rewrite app_nil_r. reflexivity.
+  - rewrite IH. cbn [rev]. rewrite <- app_assoc. reflexivity.
+Qed.
+
+(* token file, token.tmp and the store live in one directory: the one the spelling denotes *)
+Lemma state_in_data_dir home cwd s :
+  token_path home cwd s = data_dir home cwd s ++ [TOKEN] /\
+  token_tmp_path home cwd s = data_dir home cwd s ++ [TOKEN_TMP] /\
+  store_path home cwd s = data_dir home cwd s ++ [BADGER_DB].
+Proof.
+  unfold token_path, token_tmp_path, store_path. cbn [norm rev]. rewrite !rev_involutive. repeat split.
+Qed.
+
+(* spelling the directory absolutely, through the home directory or relative to the working
+   directory denotes the same directory; a trailing name/.. pair changes nothing *)
+Lemma resolve_abs home cwd ns : resolve home cwd (mkSpell false true (map Name ns)) = ns.
+Proof. unfold resolve. cbn [sp_tilde sp_abs sp_comps]. rewrite norm_names. reflexivity. Qed.
+
+Lemma resolve_tilde home cwd ns : resolve home cwd (mkSpell true false (map Name ns)) = home ++ ns.
+Proof. unfold resolve. cbn [sp_tilde sp_comps]. rewrite norm_names, rev_involutive. reflexivity. Qed.
+
+Lemma resolve_rel home cwd ns : resolve home cwd (mkSpell false false (map Name ns)) = cwd ++ ns.
+Proof. unfold resolve. cbn [sp_tilde sp_abs sp_comps]. rewrite norm_names, rev_involutive. reflexivity. Qed.
+
+Lemma resolve_dotdot home cwd t a cs n :
+  resolve home cwd (mkSpell t a (cs ++ [Name n; Up])) = resolve home cwd (mkSpell t a cs).
+Proof.
+  unfold resolve. cbn [sp_tilde sp_abs sp_comps].
+  assert (H : forall acc, norm acc (cs ++ [Name n; Up]) = norm acc cs).
+  { intro acc. rewrite norm_app. cbn [norm tl]. rewrite rev_involutive. reflexivity. }
+  rewrite !H. reflexivity.
+Qed.
+
+(* two starts whose spellings denote one directory read and write the same token file,
+   the same token.tmp and the same store *)
+Lemma same_dir_same_state home cwd home' cwd' s s' :
+  resolve home cwd s = resolve home' cwd' s' ->
+  token_path home cwd s = token_path home' cwd' s' /\
+  token_tmp_path home cwd s = token_tmp_path home' cwd' s' /\
+  store_path home cwd s = store_path home' cwd' s'.
+Proof.
+  intro H. destruct (state_in_data_dir home cwd s) as [A [B C]].
+  destruct (state_in_data_dir home' cwd' s') as [A' [B' C']].
+  unfold data_dir in *. rewrite A, B, C, A', B', C', H. repeat split.
+Qed.
+
+(* ---------- one algorithm per instance ---------- *)
+Lemma presented_algs_spec stored is :
+  presented_algs stored is = map (fun i => [(1%N, presented_spec stored i)]) is.
+Proof. unfold presented_algs. rewrite presented_is_spec, map_map. reflexivity. Qed.
